@@ -31,6 +31,11 @@ def run_cases(ctx, mod, only=None, final=True, flush_to=None):
     install.CURRENT['ctx'] = ctx
     if hasattr(mod, 'setup'):
         mod.setup(ctx)
+    try:
+        from . import coverage_targets
+        coverage_targets.install_for(ctx, ctx.prop)
+    except Exception as exc:                     # a coverage monitor that cannot be installed decides nothing
+        ctx.count('coverage-monitor-not-installed:%s' % type(exc).__name__)
     if only is not None:
         descs = [only]
     else:
